@@ -21,7 +21,7 @@ use std::collections::HashMap;
 use std::fmt::{Display, Formatter};
 
 use crate::ast::{
-    BinaryOp, EntityUID, Expr, ExprKind, Literal, PolicySet, RequestType, UnaryOp, Var,
+    BinaryOp, EntityUID, Expr, ExprKind, Literal, PolicySet, RequestType, SlotEnv, UnaryOp, Var,
 };
 use crate::entities::err::EntitiesError;
 use miette::Diagnostic;
@@ -465,7 +465,7 @@ pub fn compute_entity_manifest(
                 PolicyCheck::Success(typechecked_expr) => {
                     // compute the trie from the typechecked expr
                     // using static analysis
-                    entity_manifest_from_expr(&typechecked_expr).map(|val| val.global_trie)
+                    entity_manifest_from_expr(&typechecked_expr, policy.env()).map(|val| val.global_trie)
                 }
                 PolicyCheck::Irrelevant(_, _) => {
                     // this policy is irrelevant, so we need no data
@@ -509,22 +509,22 @@ pub fn compute_entity_manifest(
 /// A static analysis on type-annotated cedar expressions.
 /// Computes the [`RootAccessTrie`] representing all the data required
 /// to evaluate the expression.
+///
+/// `slots` is the slot environment of the (template-linked) policy being
+/// analyzed: a slot stands for the entity it is linked to.
 fn entity_manifest_from_expr(
     expr: &Expr<Option<Type>>,
+    slots: &SlotEnv,
 ) -> Result<EntityManifestAnalysisResult, EntityManifestError> {
     match expr.expr_kind() {
-        ExprKind::Slot(slot_id) => {
-            if slot_id.is_principal() {
-                Ok(EntityManifestAnalysisResult::from_root(EntityRoot::Var(
-                    Var::Principal,
-                )))
-            } else {
-                assert!(slot_id.is_resource());
-                Ok(EntityManifestAnalysisResult::from_root(EntityRoot::Var(
-                    Var::Resource,
-                )))
-            }
-        }
+        // A slot is the entity the template is linked with: `principal in ?principal`
+        // needs the linked entity as an ancestor of the principal, not the principal itself.
+        ExprKind::Slot(slot_id) => match slots.get(slot_id) {
+            Some(euid) => Ok(EntityManifestAnalysisResult::from_root(
+                EntityRoot::Literal(euid.clone()),
+            )),
+            None => Err(PartialExpressionError {})?,
+        },
         ExprKind::Var(var) => Ok(EntityManifestAnalysisResult::from_root(EntityRoot::Var(
             *var,
         ))),
@@ -539,23 +539,23 @@ fn entity_manifest_from_expr(
             test_expr,
             then_expr,
             else_expr,
-        } => Ok(entity_manifest_from_expr(test_expr)?
+        } => Ok(entity_manifest_from_expr(test_expr, slots)?
             .empty_paths()
-            .union(entity_manifest_from_expr(then_expr)?)
-            .union(entity_manifest_from_expr(else_expr)?)),
+            .union(entity_manifest_from_expr(then_expr, slots)?)
+            .union(entity_manifest_from_expr(else_expr, slots)?)),
         ExprKind::And { left, right }
         | ExprKind::Or { left, right }
         | ExprKind::BinaryApp {
             op: BinaryOp::Less | BinaryOp::LessEq | BinaryOp::Add | BinaryOp::Sub | BinaryOp::Mul,
             arg1: left,
             arg2: right,
-        } => Ok(entity_manifest_from_expr(left)?
+        } => Ok(entity_manifest_from_expr(left, slots)?
             .empty_paths()
-            .union(entity_manifest_from_expr(right)?.empty_paths())),
+            .union(entity_manifest_from_expr(right, slots)?.empty_paths())),
         ExprKind::UnaryApp { op, arg } => {
             match op {
                 // these unary ops are on primitive types, so they are simple
-                UnaryOp::Not | UnaryOp::Neg => Ok(entity_manifest_from_expr(arg)?.empty_paths()),
+                UnaryOp::Not | UnaryOp::Neg => Ok(entity_manifest_from_expr(arg, slots)?.empty_paths()),
                 UnaryOp::IsEmpty => {
                     #[expect(
                         clippy::expect_used,
@@ -565,7 +565,7 @@ fn entity_manifest_from_expr(
                         .data()
                         .as_ref()
                         .expect("Expected annotated types after typechecking");
-                    Ok(entity_manifest_from_expr(arg)?
+                    Ok(entity_manifest_from_expr(arg, slots)?
                         .full_type_required(ty)
                         .empty_paths())
                 }
@@ -582,8 +582,8 @@ fn entity_manifest_from_expr(
             arg2,
         } => {
             // First, find the data paths for each argument
-            let mut arg1_res = entity_manifest_from_expr(arg1)?;
-            let arg2_res = entity_manifest_from_expr(arg2)?;
+            let mut arg1_res = entity_manifest_from_expr(arg1, slots)?;
+            let arg2_res = entity_manifest_from_expr(arg2, slots)?;
 
             #[expect(
                 clippy::expect_used,
@@ -632,7 +632,7 @@ fn entity_manifest_from_expr(
             let mut res = EntityManifestAnalysisResult::default();
 
             for arg in args.iter() {
-                res = res.union(entity_manifest_from_expr(arg)?);
+                res = res.union(entity_manifest_from_expr(arg, slots)?);
             }
             Ok(res)
         }
@@ -642,14 +642,14 @@ fn entity_manifest_from_expr(
             entity_type: _,
         } => {
             // drop paths since boolean returned
-            Ok(entity_manifest_from_expr(expr)?.empty_paths())
+            Ok(entity_manifest_from_expr(expr, slots)?.empty_paths())
         }
         ExprKind::Set(contents) => {
             let mut res = EntityManifestAnalysisResult::default();
 
             // take union of all of the contents
             for expr in &**contents {
-                let content = entity_manifest_from_expr(expr)?;
+                let content = entity_manifest_from_expr(expr, slots)?;
 
                 res = res.union(content);
             }
@@ -664,7 +664,7 @@ fn entity_manifest_from_expr(
             let mut global_trie = RootAccessTrie::default();
 
             for (key, child_expr) in content.iter() {
-                let res = entity_manifest_from_expr(child_expr)?;
+                let res = entity_manifest_from_expr(child_expr, slots)?;
                 record_contents.insert(key.clone(), Box::new(res.resulting_paths));
 
                 global_trie = global_trie.union(res.global_trie);
@@ -676,9 +676,9 @@ fn entity_manifest_from_expr(
             })
         }
         ExprKind::GetAttr { expr, attr } => {
-            Ok(entity_manifest_from_expr(expr)?.get_or_has_attr(attr))
+            Ok(entity_manifest_from_expr(expr, slots)?.get_or_has_attr(attr))
         }
-        ExprKind::HasAttr { expr, attr } => Ok(entity_manifest_from_expr(expr)?
+        ExprKind::HasAttr { expr, attr } => Ok(entity_manifest_from_expr(expr, slots)?
             .get_or_has_attr(attr)
             .empty_paths()),
         #[cfg(feature = "tolerant-ast")]
